@@ -108,7 +108,7 @@ def run_cfg(args):
     hdr = gen.data_header(rng, "C" if conf else "U", btf=N, a=conf, sap=sap,
                           llid_source=rng.randrange(1, 1 << 24), pad=pad)
     trace = {"cfg": {"L": L, "rate": rate, "conf": conf, "p": p}, "ev": [], "seed": seed,
-             "fin": None, "gen_error": ""}
+             "fin": None, "gen_error": "", "extra": {k: cfg[k] for k in ("late", "noise") if cfg.get(k)}}
     sink = io.StringIO()
     try:
         with contextlib.redirect_stdout(sink):
@@ -129,13 +129,21 @@ def run_cfg(args):
                     noisy.append(r)
                 raws = noisy
             parsed = [Burst.from_bytes(r) for r in raws]
+            strays = []
+            if cfg.get("late"):
+                # the receiver entered late into an earlier transmission and heard only some of its data blocks (no header, not
+                # the last block); then the generated transmission arrives complete
+                from harness.drivers.c01 import make_pdu
+                for _ in range(cfg["late"]):
+                    pdu, dt, _t = make_pdu(rng, rate + ("/c" if conf else "/u"))
+                    strays.append(Burst.from_bytes(gen.assemble_data_burst(pdu, dt, cc, gen.DATA_SYNCS[0])))
     except Exception as ex:  # noqa
         trace["gen_error"] = type(ex).__name__ + ": " + str(ex)[:200]
         return trace
     c08.patch_tokens()
     c08._tok[0] = 0
     from okdmr.dmrlib.transmission.terminal import Terminal
-    matcher = Matcher(parsed)
+    matcher = Matcher(strays + parsed)
     events = []
     handed = []
 
@@ -170,7 +178,7 @@ def run_cfg(args):
         return {"slots": out, "tok": c08._tok[0]}
 
     nstart = nend = 0
-    for pos, pb in enumerate(parsed, 1):
+    for pos, pb in enumerate(strays + parsed, 1):
         events.clear()
         out = {"ev": [], "label": "Unknown", "seq": 0, "stream": 0, "outcome": "ok"}
         try:
@@ -224,7 +232,7 @@ def judge(ctx, traces, rejects):
         key = f"generator/{why}/{c['rate']}/{'confirmed' if c['conf'] else 'unconfirmed'}"
         ctx.violation(key, f"configuration {c} breaks {why} (step {l} of {len(t['ev'])})",
                       {"cfg": c, "seed": t["seed"], "clause": why, "N": t.get("N"), "pad": t.get("pad"),
-                       "fin": t["fin"]})
+                       "fin": t["fin"], "extra": t.get("extra") or {}})
 
 
 def run(ctx):
@@ -296,6 +304,7 @@ def run(ctx):
     for part in core.chunks(ok_traces, 250):
         rej = ctx.validate_traces("Trace_Fragmentation", "Trace_Fragmentation.cfg", part)
         judge(ctx, part, rej)
+    late_entry_phase(ctx, cfgs)
     airlink_phase(ctx, cfgs)
 
 
@@ -328,10 +337,36 @@ def airlink_phase(ctx, cfgs):
                         f"({c['rate']}, {'confirmed' if c['conf'] else 'unconfirmed'})")
 
 
+def late_entry_phase(ctx, cfgs):
+    """the receiving side has a history: it entered late into an earlier transmission and heard one to three of its data
+    blocks (no header, no last block) before the generated transmission arrives complete.  The statement's clauses are judged
+    on the generated transmission as before (verdict-bearing: the statement does not ask for a fresh receiver)"""
+    pick = [c for c in cfgs if c["L"] <= 80]
+    ctx.rng.shuffle(pick)
+    pick = pick[:120 if ctx.quick else 1500]
+    jobs = [(ctx.seed * 91 + n, dict(c, late=1 + n % 3)) for n, c in enumerate(pick)]
+    with Pool(core.NCPU) as pool:
+        traces = pool.map(run_cfg, jobs, chunksize=8)
+    ok = []
+    for t, (_, c) in zip(traces, jobs):
+        t["N"], t["pad"] = c["N"], c["pad"]
+        ctx.count(core.digest(["late", t["cfg"], c["late"]]))
+        if t["gen_error"]:
+            ctx.violation(f"late-entry/raises/{t['cfg']['rate']}", f"after {c['late']} stray data blocks the generated transmission {t['cfg']} raised: {t['gen_error']}",
+                          {"cfg": t["cfg"], "seed": t["seed"], "N": c["N"], "pad": c["pad"], "late": c["late"]})
+        else:
+            t.pop("gen_error")
+            ok.append(t)
+    ctx.note("late_entry_transmissions", len(ok))
+    for part in core.chunks(ok, 250):
+        judge(ctx, part, ctx.validate_traces("Trace_Fragmentation", "Trace_Fragmentation.cfg", part))
+
+
 def replay(ctx, rec):
     r = rec["record"]
     c = dict(r["cfg"])
     c["N"], c["pad"] = r["N"], r["pad"]
+    c.update(r.get("extra") or {})
     t = run_cfg((r["seed"], c))
     if t["gen_error"]:
         print(f"VIOLATION property=C07 replay=(given) generator raised {t['gen_error']}")
